@@ -26,8 +26,10 @@ Bounded(T) == \A n \in 1..Len(T.data) : T.data[n] \in (-ValueBound)..ValueBound
 
 WellFormed(e) ==
     /\ {"id", "cfg", "in", "runs"} \subseteq DOMAIN e
-    /\ {"op", "fshapes", "wlen", "coreshape", "pshapes", "hasw", "pden"} \subseteq DOMAIN e.cfg
+    /\ {"op", "fshapes", "wlen", "coreshape", "pshapes", "hasw", "pden", "bad", "skip", "tr", "modes"} \subseteq DOMAIN e.cfg
     /\ e.cfg.op \in Kinds
+    /\ e.cfg.tr \in BOOLEAN /\ e.cfg.skip \in -1..8 /\ \A j \in 1..Len(e.cfg.modes) : e.cfg.modes[j] \in 0..8
+    /\ (HasOpt(e.cfg) => e.cfg.op = "tucker" /\ e.cfg.bad = "none")       \* view options exist for Tucker only
     /\ "fs" \in DOMAIN e.in /\ TensOKs(e.in.fs) /\ \A k \in 1..Len(e.in.fs) : Bounded(e.in.fs[k])
     /\ (e.cfg.op \in {"cp", "p2"} =>
             /\ {"hasw", "w"} \subseteq DOMAIN e.in /\ e.in.hasw \in BOOLEAN
@@ -43,7 +45,7 @@ WellFormed(e) ==
           /\ {"has", "fin0", "fin3", "q3", "q0"} \subseteq DOMAIN e.runs[k].norm
           /\ (e.cfg.op = "cp" => "masked" \in DOMAIN e.runs[k])
           /\ (e.cfg.op = "ttm" => "matrix" \in DOMAIN e.runs[k])
-          /\ (e.cfg.op = "p2" => {"slices", "slice1"} \subseteq DOMAIN e.runs[k])
+          /\ (e.cfg.op = "p2" => {"slices", "slice1", "slices_nv", "slice1_nv"} \subseteq DOMAIN e.runs[k])
 
 \* the harness filled exactly the arrays the exported configuration asked for
 InDomain(e) ==
@@ -60,8 +62,9 @@ Verdict(e) ==
     IF ~WellFormed(e) THEN <<"WellFormed", "-">>
     ELSE IF ~InDomain(e) THEN <<"InDomain", "-">>
     ELSE
-    LET kd == e.cfg.op  in == e.in  R == e.runs  keys == DOMAIN e.runs IN
-    IF MustReject(kd, in)
+    LET kd == e.cfg.op  in == e.in  R == e.runs  keys == DOMAIN e.runs  c == e.cfg
+        opt == HasOpt(e.cfg) IN
+    IF ~opt /\ MustReject(kd, in)
     THEN \* every entry point must refuse: the validator / wrapper constructor runs (reported first) and the
          \* `convert` runs (all conversion functions of the format called on the raw tuple; rejected = all raised)
          LET failing == {k \in keys : ~R[k].rejected}
@@ -69,9 +72,15 @@ Verdict(e) ==
          IF prim # {} THEN <<"InvalidAccepted", CHOOSE k \in prim : TRUE>>
          ELSE IF failing # {} THEN <<"InvalidConverted", CHOOSE k \in failing : TRUE>>
          ELSE <<"ok", "-">>
-    ELSE IF ~Valid(kd, in) THEN <<"ok", "-">>     \* malformed in a way the property does not name: no obligation
+    ELSE IF opt /\ ~ValidTuckerOpt(in, c.skip, c.tr, c.modes) THEN <<"InDomain", "-">>
+    ELSE IF ~opt /\ ~Valid(kd, in) THEN <<"ok", "-">>     \* malformed in a way the property does not name: no obligation
     ELSE
-    LET D  == Dense(kd, in)
+    \* ONE dense tensor per event -- under Tucker view options the option-dependent one; every logged view
+    \* (dense, each unfolding, vec) must be the corresponding view of it.  tucker_to_unfolded / _vec have no
+    \* `modes` argument, and shape / rank / norm are reported for the plain factorised tensor only.
+    LET D  == IF opt THEN TuckerDenseOpt(in, c.skip, c.tr, c.modes) ELSE Dense(kd, in)
+        needviews == c.modes = <<>>
+        needmeta  == ~opt
         N  == Len(D.shape)
         n2 == Norm2(D)
         UnfOK(r) == /\ Len(r.unf) = N
@@ -87,15 +96,16 @@ Verdict(e) ==
             ELSE IF ~r.exact THEN "Exact"
             ELSE IF ~IsLoggedT(r.dense) \/ r.dense.shape # D.shape THEN "DenseShape"
             ELSE IF r.dense.data # D.data THEN "Dense"
-            ELSE IF ~UnfOK(r) THEN "Unfolded"
-            ELSE IF ~IsLoggedT(r.vec) \/ ~SameT(r.vec, Vec(D)) THEN "Vec"
+            ELSE IF needviews /\ ~UnfOK(r) THEN "Unfolded"
+            ELSE IF needviews /\ (~IsLoggedT(r.vec) \/ ~SameT(r.vec, Vec(D))) THEN "Vec"
             ELSE IF kd = "cp" /\ (~IsLoggedT(r.masked) \/ ~SameT(r.masked, Hadamard(D, in.mask))) THEN "Masked"
             ELSE IF kd = "ttm" /\ (~IsLoggedT(r.matrix) \/ ~SameT(r.matrix, TTMMatrix(in))) THEN "Matrix"
             ELSE IF kd = "p2" /\ ~SlicesOK(r.slices) THEN "Slices"
             ELSE IF kd = "p2" /\ ~SlicesOK(r.slice1) THEN "Slice"
-            ELSE IF r.shape # ShapeOf(kd, in) THEN "Shape"
-            ELSE IF r.rank # RankOf(kd, in) THEN "Rank"
-            ELSE IF ~NormOK(r) THEN "Norm"
+            ELSE IF kd = "p2" /\ (~SlicesOK(r.slices_nv) \/ ~SlicesOK(r.slice1_nv)) THEN "SliceNoValidate"
+            ELSE IF needmeta /\ r.shape # ShapeOf(kd, in) THEN "Shape"
+            ELSE IF needmeta /\ r.rank # RankOf(kd, in) THEN "Rank"
+            ELSE IF needmeta /\ ~NormOK(r) THEN "Norm"
             ELSE "ok"
         \* The runs of one event usually return identical views: the first run is compared with the
         \* specification, a run whose logged views are identical to an accepted run's is accepted
@@ -106,7 +116,7 @@ Verdict(e) ==
             /\ r.rejected = s.rejected /\ r.raised = s.raised /\ r.exact = s.exact
             /\ r.dense = s.dense /\ r.unf = s.unf /\ r.vec = s.vec /\ r.shape = s.shape /\ r.rank = s.rank
             /\ (kd = "cp" => r.masked = s.masked) /\ (kd = "ttm" => r.matrix = s.matrix)
-            /\ (kd = "p2" => r.slices = s.slices /\ r.slice1 = s.slice1)
+            /\ (kd = "p2" => r.slices = s.slices /\ r.slice1 = s.slice1 /\ r.slices_nv = s.slices_nv /\ r.slice1_nv = s.slice1_nv)
         ClauseOf(k) == IF k = k0 THEN c0
                        ELSE IF c0 = "ok" /\ SameViews(R[k], R[k0]) THEN (IF NormOK(R[k]) THEN "ok" ELSE "Norm")
                        ELSE Clause(R[k])
